@@ -119,11 +119,16 @@ func (db *RockDB) hSetField(ts int64, checkNX bool, hkey []byte, field []byte, v
 }
 
 func (db *RockDB) HLen(hkey []byte) (int64, error) {
+	return db.hLen(time.Now().UnixNano(), hkey, true)
+}
+
+// hLen is the length as of ts. Write commands must pass the timestamp of the
+// raft log entry (and no lock), reads the local time.
+func (db *RockDB) hLen(ts int64, hkey []byte, useLock bool) (int64, error) {
 	if err := checkKeySize(hkey); err != nil {
 		return 0, err
 	}
-	tn := time.Now().UnixNano()
-	oldh, expired, err := db.hHeaderMeta(tn, hkey, true)
+	oldh, expired, err := db.hHeaderMeta(ts, hkey, useLock)
 	if err != nil {
 		return 0, err
 	}
@@ -531,7 +536,9 @@ func (db *RockDB) HClear(ts int64, hkey []byte) (int64, error) {
 		defer tableIndexes.Unlock()
 	}
 
-	hlen, err := db.HLen(hkey)
+	// must use the log timestamp here: whether the hash is already expired decides
+	// what is deleted and what is answered, and that has to be the same on every replica
+	hlen, err := db.hLen(ts, hkey, false)
 	if err != nil {
 		return 0, err
 	}
